@@ -541,6 +541,56 @@ def r5_guarded_slicing(ctx, F):
     ctx.floor("functions-on-reader-paths", len([f for f in reach if f.startswith("miden_") and f in F.fns]), 80)
 
 
+# ---- R6: every value a validating constructor accepts can be re-encoded ---------------------------------------------------------
+def _len_bound(fn, panicking):
+    """(op, constant) of the comparison `len OP constant` whose failing side panics (writer assertion, panicking=True) or whose
+    true side rejects (validator, panicking=False); None when the function has no such single comparison"""
+    out = []
+    for c in cmp_branches(fn):
+        if c["kind"] != "bin" or c["op"] not in ("<", "<=", ">", ">="):
+            continue
+        k = fn.const_of(c["b"])
+        if not isinstance(k, int) or isinstance(k, bool) or fn.const_of(c["a"]) is not None:
+            continue
+        side = c["false"] if panicking else c["true"]
+        reach = fn.reachable_blocks(side)
+        if panicking:
+            hit = any(fn.blocks[b]["t"]["k"] == "call" and re.search(r"panicking::|panic", fn.blocks[b]["t"]["f"].get("fn", "")) for b in reach)
+        else:
+            hit = bool(reach & err_blocks(fn)) or any(fn.blocks[b]["t"]["k"] == "call" and re.search(r"Error::|_too_long$|TooMany", fn.blocks[b]["t"]["f"].get("fn", "")) for b in reach) \
+                or any(s_["r"]["k"] == "agg" and s_["r"].get("variant") == "Err" for b in reach for s_ in fn.blocks[b]["s"])
+        if hit:
+            out.append((c["op"], k))
+    return out[0] if len(out) == 1 else None
+
+
+def r6_writer_assertions(ctx, F):
+    """a writer's (debug) assertion on a length must hold for every length the type's validation accepts, otherwise a value
+    accepted from untrusted bytes cannot be re-encoded (the writer panics in debug builds)"""
+    pairs = [("LibraryPath", r"LibraryPath@Serializable::write_into$", r"^miden_assembly::library::path::validate_path_len$"),
+             ("Kernel", r"Kernel@Serializable::write_into$", r"^miden_core::program::Kernel::new$")]
+    for name, wp, vp in pairs:
+        ctx.inst(key="writer-assertion|" + name, nontrivial=True)
+        w, v = F.fn(wp), F.fn(vp)
+        wb, vb = _len_bound(w, True), _len_bound(v, False)
+        if wb is None or vb is None:
+            # no assertion in the writer: nothing it can refuse
+            if wb is None and not any(re.search(r"panicking::|panic", t["f"].get("fn", "")) for b, c_, t in w.calls()):
+                ctx.oblig(True)
+                continue
+            ctx.violation("UNANALYSABLE|writer-assertion|%s" % name, w.loc(), "could not read the length bounds of %s / %s (%s, %s)" % (short(w.id), short(v.id), wb, vb))
+            continue
+        # largest length the validator accepts / the writer's assertion admits
+        acc = {">": vb[1], ">=": vb[1] - 1}.get(vb[0])
+        adm = {"<": wb[1] - 1, "<=": wb[1]}.get(wb[0])
+        ok = acc is not None and adm is not None and acc <= adm
+        ctx.oblig(ok)
+        ctx.analysed("%s: validation accepts lengths up to %s, the writer asserts length %s %s" % (name, acc, wb[0], wb[1]))
+        if not ok:
+            ctx.violation("writer-refuses-accepted-value|%s" % name, w.loc(), "%s accepts a length of %s (it rejects only `len %s %s`), but %s asserts `len %s %s`: a value of that length, accepted from untrusted bytes, "
+                          "makes the writer panic in debug builds - it cannot be re-encoded" % (short(v.id), acc, vb[0], vb[1], short(w.id), wb[0], wb[1]))
+
+
 def run(ctx, F):
     ctx.trusted += ["rustc MIR via mirfacts", "mirsym; symbolic ByteReader model", "winter-utils / miden-crypto readers are trusted (external crates)"]
     ctx.assumptions += ["loops over input-sized collections are explored for one iteration of the body", "string validators are abstract",
@@ -551,3 +601,4 @@ def run(ctx, F):
     ctx.run_rule("C19-R4", "integer inputs are checked against the field modulus for every parameter", r4_canonical_elements, F)
     ctx.run_rule("C19-R5", "slicing calls on the reader paths (str / slice split_at in the readers and the validating constructors they call) are dominated by a check that makes the receiver long enough", r5_guarded_slicing, F)
     ctx.run_rule("C19-R5b", "unwrap / expect on the reader paths (readers, validating constructors and the helpers they call) cannot fail: widening conversions, or the first character of a string dominated by the false branch of is_empty() on that string", r5b_guarded_unwraps, F)
+    ctx.run_rule("C19-R6", "the length assertions of the LibraryPath and Kernel writers hold for every length their validation accepts (an accepted value can be re-encoded in debug builds too)", r6_writer_assertions, F)
